@@ -8,7 +8,7 @@ open Gallia Gallia.Proto Gallia.SessionScan
     scan d=<n> skip=<csv|-> th=<0|1> rs=<n|-> hk=<0|1> mr=<n> rst=<p|s|n<dec>> g=<edges|-> [gh=<edges|->]
          [hp=<csv of 2-byte hook PDUs as numbers|->] [hq=<csv|->] [boot=<n>]
     scans <the fields of scan> fam=<graph|s3|locked> pb=<ping budget> [s3ms=<ms>] [s3n=<requests>] [lk=<a>b,...>] [pn=<n>]
-          [fl=<s|b|-,...>]
+          [fl=<s|b|-,...>] [dl=<ms,...>] [rec=<n,...>: length of the sessionParameterRecord, not part of the model]
       the same scanner against a stateful ECU (Model/SessionScanS.lean): graph ECU, S3 timer, security-locked edges; wrapped
       into ResponsePending frames (`(session + request code) % (pn + 1)` of them) and a script of sporadic faults
       (s = no answer, b = busyRepeatRequest, - = handled)
@@ -147,8 +147,15 @@ def showS {σ} (L : Link σ) (x : StS σ) : String :=
   let probesOk := st.reqs.all fun r => r.kind != .probe || r.cur == r.top
   s!"exit={exitCode st} end={ending st} result={csv (result st)} trans={semi tr} neg={semi ng} cur={st.cur} client={x.client} track={if probesOk then 1 else 0} reqs={",".intercalate (st.reqs.reverse.map showReq)}"
 
-def runWrapped {σ} (c : CfgS) (O : Oracle σ) (e : σ) (pn : Nat) (fl : List (Option Ans)) : String :=
-  let O1 := withPending O (fun s w => (O.sessionOf s + wireCode w) % (pn + 1))
+/-- `dl=`: ms between the last ResponsePending frame and the positive reply of a session change, picked by
+    `(3 * session + target) % length` -/
+def gapOf {σ} (O : Oracle σ) (dl : List Nat) (s : σ) (w : Wire) : Nat :=
+  match w with
+  | .dsc u => if dl.isEmpty then 0 else dl.getD ((O.sessionOf s * 3 + u) % dl.length) 0
+  | _ => 0
+
+def runWrapped {σ} (c : CfgS) (O : Oracle σ) (e : σ) (pn : Nat) (fl : List (Option Ans)) (dl : List Nat := []) : String :=
+  let O1 := withSlowPending O (fun s w => (O.sessionOf s + wireCode w) % (pn + 1)) (gapOf O dl)
   let L := linkOf (withFaults O1)
   showS L (scanS c L (e, fl))
 
@@ -162,13 +169,14 @@ def runScanS (kv : List (String × String)) : String :=
   let E : Ecu := { g := graphFn t, rst := fun _ => ra, gh := graphFn th, boot := fun _ => boot }
   let pn := (field kv "pn").toNat?.getD 0
   let fl := parseFaults (field kv "fl")
+  let dl := if field kv "dl" == "-" || field kv "dl" == "" then [] else ((field kv "dl").splitOn ",").filterMap String.toNat?
   match field kv "fam" with
   | "s3" =>
-    runWrapped c (s3Oracle E { s3Ms := (field kv "s3ms").toNat?.getD 0, maxReqs := (field kv "s3n").toNat?.getD 0 }) (1, 0) pn fl
+    runWrapped c (s3Oracle E { s3Ms := (field kv "s3ms").toNat?.getD 0, maxReqs := (field kv "s3n").toNat?.getD 0 }) (1, 0) pn fl dl
   | "locked" =>
     let lk := parseLocked (field kv "lk")
-    runWrapped c (lockedOracle E (fun p u => lk.contains (p, u))) (1, false) pn fl
-  | _ => runWrapped c (graphOracle c0 E) {} pn fl
+    runWrapped c (lockedOracle E (fun p u => lk.contains (p, u))) (1, false) pn fl dl
+  | _ => runWrapped c (graphOracle c0 E) {} pn fl dl
 
 def step (line : String) : String :=
   match words line with
